@@ -13,8 +13,8 @@ QoS 2 second half / reply consumed), the fast reply that arrived while the reque
 quota of `async_sender` (`_limit`, `_quota`) is kept as the list of identifiers holding a token.
 
 `step` is partial: `none` means "the real client cannot do this".  The model over-approximates the client where
-no property depends on the choice (for instance it lets a request be retransmitted on the same connection, and it
-never gives quota back on an error completion); the theorems in `Props/Trace*.lean` hold for EVERY event list the
+no property depends on the choice (for instance it never gives quota back on an error completion and does not count
+the tokens of re-sent PUBRELs); the theorems in `Props/Trace*.lean` hold for EVERY event list the
 model accepts, and the tie (`lib/trace_check.py`) feeds it every transcript of the real client. -/
 namespace Mqtt5V.Model.Trace
 open Mqtt5V Mqtt5V.Model.Verdict
@@ -189,7 +189,7 @@ def request (s : S) (op pid : Nat) (k : Kind) (dup : Bool) (body : Nat) : Option
       -- retransmission: same operation, same bytes, not after PUBREC, DUP = 1 if a transmission was written before
       if sl.op ≠ op || s.bodyOf op ≠ some body || (sl.okBefore && !dup) then none else
       match sl.phase with
-      | .idle | .waiting => some { s with slot := upd s.slot pid (some { sl with phase := .writing, fast := none }) }
+      | .idle => some { s with slot := upd s.slot pid (some { sl with phase := .writing, fast := none }) }
       | _ => none
 
 def addWire (w : List Nat) (pid : Nat) : List Nat := if pid ∈ w then w else pid :: w
@@ -216,7 +216,7 @@ def stepPk (s : S) : Out → Option S
     | some sl =>
       if sl.kind ≠ .pub2 then none else
       match sl.phase with
-      | .relIdle | .relWaiting => some { s with slot := upd s.slot pid (some { sl with phase := .relWriting, fast := none }) }
+      | .relIdle => some { s with slot := upd s.slot pid (some { sl with phase := .relWriting, fast := none }) }
       | _ => none
     | none => none
   | .other => some s
